@@ -10,7 +10,7 @@ from concurrent.futures import ThreadPoolExecutor
 from vlib import core, fraggen
 
 
-def run_cmd(cmd, cwd, env, timeout=60):
+def run_cmd(cmd, cwd, env, timeout=240):
     try:
         p = subprocess.run(cmd, cwd=cwd, env=env, timeout=timeout, stdout=subprocess.PIPE, stderr=subprocess.PIPE)
         return p.returncode, p.stdout.decode("utf-8", "replace"), p.stderr.decode("utf-8", "replace")
